@@ -374,6 +374,8 @@ func whyClass(why string) string {
 		return "count-mismatch"
 	case contains(why, "no verifier"):
 		return "count-mismatch"
+	case contains(why, "panics when consulted"):
+		return "verifier-panics"
 	}
 	return "other"
 }
